@@ -11,9 +11,10 @@
    [2, msg_type, [clord]?, [orig]?, status] -> [1, msg] | [2] (TagNotFoundError) | [3] (AssertionError)
    [3, k, ...]                      -> [msg_type, msg]   session message factories
    [4, order, msg]                  -> [outcome, order'] process_execution_report
-   [5, state, key]                  -> [registered keys'] *)
+   [5, state, key]                  -> [registered keys']
+   [7, k, msg]                      -> [[tag text, value text] ...]   the message rendered with print_q k *)
 From Coq Require Import ZArith NArith List Bool.
-From AF Require Import Base.Sx Py.Str Fix.OrderStatus Fix.Tester.
+From AF Require Import Base.Sx Py.Str Fix.OrderStatus Fix.Tester Fix.TesterPrint.
 Import ListNotations.
 Open Scope Z_scope.
 
@@ -121,6 +122,11 @@ Definition run (req : sx) : sx :=
       match get_state st, get_str key with
       | Some st, Some key => sx_of_list sx_of_str (t_reg (register st key))
       | _, _ => err_sx 1
+      end
+  | SL [SI 7; SI k; m] =>
+      match get_list get_field m with
+      | Some m => SL (map (fun e => SL [sx_of_str (fst e); sx_of_str (snd e)]) (flat (print_q (Z.to_nat k)) m))
+      | None => err_sx 1
       end
   | _ => err_sx 2
   end.
